@@ -12,9 +12,28 @@ import time
 
 ROOT = os.path.dirname(os.path.dirname(os.path.abspath(__file__)))
 REPO = os.environ.get("VERIF_REPO", "/repo")
-BUILD = os.path.join(ROOT, ".build")
-COQ = os.path.join(ROOT, "coq")
-HARNESS = os.path.join(ROOT, "harness")
+# A check against another tree (VERIF_REPO=<scratch worktree>, used to try seeded changes) gets its own
+# build directory, its own copy of the harness module and of the Coq project, so that it never disturbs
+# the binaries, go.mod or regenerated tables used for /repo itself.
+ALT = os.path.realpath(REPO) != "/repo"
+if ALT:
+    import hashlib
+    BUILD = os.path.join(ROOT, ".build", "alt-" + hashlib.md5(os.path.realpath(REPO).encode()).hexdigest()[:10])
+    COQ = os.path.join(BUILD, "coq")
+    HARNESS = os.path.join(BUILD, "harness")
+else:
+    BUILD = os.path.join(ROOT, ".build")
+    COQ = os.path.join(ROOT, "coq")
+    HARNESS = os.path.join(ROOT, "harness")
+
+
+def sync_alt():
+    """refresh the private copies used for an alternative tree (mtimes preserved: no needless rebuilds)"""
+    if not ALT:
+        return
+    os.makedirs(BUILD, exist_ok=True)
+    subprocess.run(["rsync", "-a", "--delete", os.path.join(ROOT, "harness") + "/", HARNESS + "/"], check=True)
+    subprocess.run(["rsync", "-a", "--delete", "--exclude", ".lia.cache", os.path.join(ROOT, "coq") + "/", COQ + "/"], check=True)
 WORK = os.path.join(ROOT, ".work", str(os.getpid()))
 
 GOENV = dict(os.environ)
@@ -436,13 +455,14 @@ class Run:
 
     def finish(self, proof):
         """proof: dict(ok, obligations, discharged, checker_cmd, assumptions_text, broken=[...])"""
-        os.makedirs(os.path.join(ROOT, "evidence"), exist_ok=True)
-        os.makedirs(os.path.join(ROOT, "replay"), exist_ok=True)
+        OUT = BUILD if ALT else ROOT      # a run against another tree must not overwrite the real evidence
+        os.makedirs(os.path.join(OUT, "evidence"), exist_ok=True)
+        os.makedirs(os.path.join(OUT, "replay"), exist_ok=True)
         lines, rc = [], 0
         n = 0
         for v in self.violations[:5]:
             n += 1
-            path = os.path.join(ROOT, "replay", "%s-%d-%d.json" % (self.prop, self.seed, n))
+            path = os.path.join(OUT, "replay", "%s-%d-%d.json" % (self.prop, self.seed, n))
             v = dict(v)
             v.update({"property": self.prop, "tier": self.tier, "seed": self.seed, "kind": "failing-input"})
             json.dump(v, open(path, "w"), indent=1, ensure_ascii=False, default=str)
@@ -451,7 +471,7 @@ class Run:
         if not self.violations:
             broken = list(proof.get("broken", [])) + self.corr_breaks
             if broken:
-                path = os.path.join(ROOT, "replay", "%s-%d-nofail.json" % (self.prop, self.seed))
+                path = os.path.join(OUT, "replay", "%s-%d-nofail.json" % (self.prop, self.seed))
                 json.dump({"property": self.prop, "tier": self.tier, "seed": self.seed, "kind": "no-failing-input-found",
                            "no_longer_checks": broken[:20]}, open(path, "w"), indent=1, ensure_ascii=False, default=str)
                 lines.append("VIOLATION property=%s replay=%s no-failing-input-found" % (self.prop, path))
@@ -477,13 +497,14 @@ class Run:
             "coverage": cov, "assumptions": self.assumptions,
             "wall_s": round(time.time() - self.t0, 2), "violations": len(self.violations) + (1 if rc and not self.violations else 0),
         }
-        json.dump(ev, open(os.path.join(ROOT, "evidence", self.prop + ".json"), "w"), indent=1, ensure_ascii=False, default=str)
+        json.dump(ev, open(os.path.join(OUT, "evidence", self.prop + ".json"), "w"), indent=1, ensure_ascii=False, default=str)
         sys.stdout.flush()
         return rc
 
 
 def prepare(prop_files, need_race=False, thorough=False):
     """Build everything from the current trees; returns (vharness path, proof dict)."""
+    sync_alt()
     vh = build_harness()
     if need_race:
         build_harness(race=True)
